@@ -253,7 +253,11 @@ def run(ctx: Ctx, tier: str) -> Result:
     # ---------------- E
     lps = p.func("deep.poll.poll.LongPoll.shutdown")
     stops = [c for c in t.calls_in(lps) if any(f.qname == "deep.utils.RepeatedTimer.stop" for f in t.resolve_call(c, lps).repo)]
-    if stops:
+    extra_ = [(norm(c), pol) for c, pol in paths.conditions(p, stops[0], lps)] if stops else []
+    extra_ = [x for x in extra_ if x not in (("self.timer", True), ("self.timer is not None", True), ("self.timer is None", False))]
+    if stops and extra_:
+        res.fail(Finding("C14.E", lps.qname, stops[0], lps.loc(stops[0]), "the poll timer is only stopped when `%s`: polling goes on after shutdown" % extra_[0][0][:60]))
+    elif stops:
         res.ok("C14.E", {"LongPoll.shutdown stops timer": lps.loc(stops[0])})
     else:
         res.fail(Finding("C14.E", lps.qname, "<timer.stop()>", lps.loc(), "poll shutdown does not stop the timer"))
